@@ -13,7 +13,7 @@ PROPS["C13"] = {
                 "concat/multiConcat/collapseEmpty, list and optional rule synthesis; syntax/syntax.go: Expr.Equal, Model.Rearrange; util/ident.Produce (C28 model) inside ProvisionalName; "
                 "DefaultExpandOptions and untyped symbols (no synthesised list/optional commands), group = 0 (models not produced by Instantiate)",
     "partial": "C13_expand_correct covers the whole model of Expand under the boolean side condition expand_checks (evaluated on every generated model: no Fatal branch, references in range, "
-               "the sortTail permutation is a permutation); not proved: that expand_checks holds for every well-formed model. The bridge to Derive.derives (C13_flat_table_is_cfg) is for tables of flat choices "
+               "the sortTail permutation is a permutation); not proved: that expand_checks holds for every well-formed model; proved building blocks (C13_sort_tail_sort_partial): the sort inside sortTail permutes its local list for every name function, the local list is duplicate free, every permutation of 0..n-1 passes perm_ok; missing is the phase-1 loop invariant that sortTail hands out exactly the slots its local nonterminals held. The bridge to Derive.derives (C13_flat_table_is_cfg) is for tables of flat choices "
                "(no set / lookahead nonterminals left). compiler/syntax.go convertPart/convertRules are covered by the .tm end-to-end oracle only (no model); updateArgRefs/CmdArgs/Pos belong to C16",
     "level_text": "Universal Coq theorems: C13_expand_correct - for every model passing the boolean side conditions and every original nonterminal X, the language of X in the extended notation "
                   "(least solution of the value equations: optional, nested choice, sequence, wrappers, lists with separators, sets, lookaheads) equals the language of perm(X) in the table produced by the model of "
